@@ -41,7 +41,12 @@ RDFLIB_ENTRIES = {
 }
 
 
+OPTIONS_OVERRIDE: Any = None     # a caller-owned SerializerOptions object re-used across serializations (set by a workload)
+
+
 def make_options(cfg: dict, flow: Any = None) -> pstreams.SerializerOptions:
+    if OPTIONS_OVERRIDE is not None and flow is None:
+        return OPTIONS_OVERRIDE
     n, p, d = cfg.get("preset", (4000, 150, 32))
     kw = dict(
         generalized_statements=cfg.get("generalized", True),
